@@ -112,3 +112,52 @@ def paste_oracle(n_quick=120, n_thorough=2500):
         return out
     return Oracle(name='paste', gen=gen, check=_paste_check, nontrivial=lambda c: True,
                   classify=lambda c: 'files%d' % len(c['split']['files']), timeout=180)
+
+
+def layout_gen(profile, n_quick, n_thorough, opts=None, isa=False):
+    def gen(rng, tier):
+        from . import sysisa
+        out = []
+        for _ in range(n_quick if tier == 'quick' else n_thorough):
+            c = sysisa.gen_isa_case(rng, {'p_macros': 0.3}, tier) if isa else gen_program(rng, PROFILES[profile], tier)
+            c['layout'] = rng.randrange(1 << 30)
+            if opts:
+                c['layout_opts'] = opts
+            out.append(c)
+        return out
+    return gen
+
+
+def layout_tie(profile='general', n_quick=250, n_thorough=4000, opts=None, name='layout'):
+    """the model knows nothing about layout: the implementation, fed a randomly laid-out text, must still agree with it"""
+    return Tie(name=name, imports=['Base', 'Program'], run_def='run_prog', eqb='obs_prog_eqb',
+               gen=layout_gen(profile, n_quick, n_thorough, opts), impl=sysgen.impl_assemble, case_term=sysgen.case_term,
+               obs_term=sysgen.obs_term, nontrivial=nontrivial, classify=classify, shard=60, timeout=60)
+
+
+def layout_isa_tie(n_quick=200, n_thorough=3000, opts=None, name='layout_isa'):
+    from . import sysisa
+    return Tie(name=name, imports=['Base', 'Program', 'Match', 'ProgramIsa'], run_def='run_prog_isa', eqb='obs_prog_eqb',
+               gen=layout_gen(None, n_quick, n_thorough, opts, isa=True), impl=sysgen.impl_assemble,
+               case_term=sysisa.isa_case_term, obs_term=sysgen.obs_term, nontrivial=lambda c: True,
+               classify=lambda c: 'isa', shard=40, timeout=60)
+
+
+def _layout_check(case):
+    """metamorphic: canonical text vs the same program under several random layouts"""
+    base = dict(case)
+    base.pop('layout', None)
+    a = C.run_forked(sysgen.impl_assemble, base, 60)
+    for k in range(3):
+        v = dict(case, layout=case['layout'] + k)
+        b = C.run_forked(sysgen.impl_assemble, v, 60)
+        if a[0] != b[0]:
+            return f'canonical text: {a[0]} ({str(a[1])[:100]}); layout {v["layout"]}: {b[0]} ({str(b[1])[:100]})'
+        if a[0] == 'ok' and a[1]['image'] != b[1]['image']:
+            return f'layout {v["layout"]} changes the image'
+    return None
+
+
+def layout_oracle(profile='general', n_quick=100, n_thorough=2000, opts=None):
+    return Oracle(name='relayout', gen=layout_gen(profile, n_quick, n_thorough, opts), check=_layout_check,
+                  nontrivial=lambda c: True, classify=classify, timeout=240)
